@@ -477,6 +477,17 @@ def run(ctx):
         try:
             pe = parse_pe(runs["envelope"]["pe"])
             res = solver.run_problems(exe, [pe], [("adj", a) for a in algs], [([], [])])[0]
+            # the recorded envelope finding also shows when the dump (printed with 16 digits) is re-adjusted: judged by its own pivots
+            defs = {r_["alg"]: r_["raw"]["defect"][1][0] for r_ in res if "raw" in r_ and r_["raw"]["defect"][0] == "ok"}
+            if "envelope" in defs and len(set(defs.values())) > 1 and len(set(v_ for k_, v_ in defs.items() if k_ != "envelope")) == 1 \
+                    and int(defs["envelope"]) < int(defs[[k_ for k_ in defs if k_ != "envelope"][0]]):
+                piv = envelope_pivots(exe, pe)
+                nz = sorted(abs(v_) for v_ in piv if v_ != 0)
+                if nz and nz[0] < 1e-6 * nz[len(nz) // 2]:
+                    if not ctx.violation({"kind": "E:g3", "input": txt, "envelope_pivots": piv, "defects": defs},
+                                         "Adj/envelope on the project-equation dump reports defect %s, the other algorithms %s" % (defs["envelope"], defs),
+                                         key="C19:envelope-undercounts-defect-after-tiny-pivot"):
+                        res = [r_ for r_ in res if r_["alg"] != "envelope"]
             xs = []
             for r_ in res:
                 if "raw" in r_ and r_["raw"]["x"][0] == "ok":
